@@ -21,6 +21,7 @@ import (
 func init() {
 	register("c07-wire", "C07", func(c *ctx) { c07Wire(c, "c07") })
 	register("c08-wire", "C08", func(c *ctx) { c07Wire(c, "c08") })
+	register("c20-wire", "C20", func(c *ctx) { c07Wire(c, "c20") })
 }
 
 type c07Route struct {
@@ -65,7 +66,20 @@ type c07Rig struct {
 	plain, tlsA, v6 string
 	routes          []c07Route
 	hc              c07HdrCfg
+	logged          sync.Map // request id -> *c20Expect (c20-wire)
 }
+
+// c20Expect is what the access log must say about one proxied request.
+type c20Expect struct {
+	Status   int
+	BodyLen  int
+	Method   string
+	Service  string
+	T0, T1   time.Time // harness clock before sending / after the complete response
+	Describe string
+}
+
+const c20WireFormat = "ACCESSLOG|$header.X-Verif-Id|$response_status|$response_body_size|$request_method|$upstream_service|$time_rfc3339_ms|$time_unix_ms|$time_common"
 
 const c07NoRouteHTML = "<html><body>no route here</body></html>"
 
@@ -281,7 +295,7 @@ func genC07(r *rand.Rand, rg *c07Rig, id string, thorough bool) *c07Req {
 			n = 32*1024 + r.Intn(3) - 1
 		case x == 2:
 			n = 200000 + r.Intn(800000)
-		case x == 3 && thorough:
+		case x == 3 && thorough && r.Intn(12) == 0:
 			n = 8<<20 + r.Intn(24<<20)
 		}
 		q.Body = make([]byte, n)
@@ -302,7 +316,7 @@ func genC07(r *rand.Rand, rg *c07Rig, id string, thorough bool) *c07Req {
 		n = 0
 	case x == 1:
 		n = 300000 + r.Intn(700000)
-	case x == 2 && thorough:
+	case x == 2 && thorough && r.Intn(12) == 0:
 		n = 8<<20 + r.Intn(8<<20)
 	}
 	sc.Body = make([]byte, n)
@@ -380,7 +394,11 @@ func (q *c07Req) sent(name string) []string {
 
 func c07Wire(c *ctx, which string) {
 	c.R.Rule = "the real fabio binary (plain, TLS and IPv6 listeners, routes for every strip/prepend/host/target-query combination delivered through the fake Consul KV) between raw-socket clients and a socket-level recording upstream: generated methods, raw paths with percent-encoded segments, queries, 0-16 headers incl. repeated and forged managed ones, bodies 0B-1MiB by Content-Length or chunked; scripted upstream answers (status 200-599, headers, length/chunked/close framing, trailers). "
-	if which == "c07" {
+	if which == "c20" {
+		c.R.Rule = "[c20-wire] the real binary (same HTTP rig as c07-wire: 36 routes, raw-socket clients, scripted upstream answers incl. 1xx informational responses, chunked/length/close framing, HEAD, large bodies) with -log.access.target stdout and a format of 8 fields, fabio's TZ set far from UTC: exactly one line per completed proxied request; status, payload size, method and service equal what the client saw on the wire; the time fields are UTC, agree with each other and lie between the sending of the request and the reading of the log on the harness clock. evaluations = logged requests compared; non-trivial = request with a non-200 status or a body"
+	}
+	if which == "c20" {
+	} else if which == "c07" {
 		c.R.Rule += "C07 oracle: method, body, query merge, raw request target after strip/prepend, Host per route option, end-to-end headers both ways, status and body bytes, no-route status/page and zero upstream hits. non-trivial = request with an encoded path segment together with strip or prepend, or a body >= 32KiB, or a non-default framing; distinct by request"
 	} else {
 		c.R.Rule += "C08 oracle: client-IP header, X-Forwarded-For tail, X-Real-Ip, TLS header, X-Forwarded-Proto/-Port/-Host, Forwarded, Strict-Transport-Security, on plain/TLS/IPv6/websocket requests from different loopback source addresses. non-trivial = request that carries a forged managed header, or uses TLS, a host= route, a websocket upgrade or an IPv6 literal host; distinct by request"
@@ -392,13 +410,18 @@ func c07Wire(c *ctx, which string) {
 	if c.thorough() {
 		cfgs = append(cfgs, c07HdrCfg{Name: "B", STSMaxAge: 600}, c07HdrCfg{Name: "D", TLSHeader: "x-forwarded-SSL", TLSValue: "on", ClientIP: "X-CLIENT-ADDR"})
 	}
-	n := c.scale(c.pick(2500, 60000))
+	n := c.scale(c.pick(2500, 15000))
 	var wg sync.WaitGroup
 	for ci, hc := range cfgs {
 		wg.Add(1)
 		go func(ci int, hc c07HdrCfg) {
 			defer wg.Done()
-			rg, err := newC07Rig(c, hc, nil)
+			var extra []string
+			if which == "c20" {
+				// the access log on stdout, fabio itself in a zone far from UTC
+				extra = []string{"-log.access.target", "stdout", "-log.access.format", c20WireFormat, "ENV:TZ=" + choose(c.rng(int64(ci)), []string{"Asia/Tokyo", "America/Los_Angeles", "Australia/Adelaide"})}
+			}
+			rg, err := newC07Rig(c, hc, extra)
 			if err != nil {
 				c.R.Inconcl("cannot start the HTTP rig %s: %v", hc.Name, err)
 				return
@@ -421,6 +444,9 @@ func c07Wire(c *ctx, which string) {
 			}
 			cwg.Wait()
 			c.R.Count("unrouted_requests", unrouted.Load())
+			if which == "c20" {
+				c20CheckLog(c, rg)
+			}
 		}(ci, hc)
 	}
 	wg.Wait()
@@ -443,6 +469,7 @@ func c07One(c *ctx, which string, rg *c07Rig, q *c07Req, unrouted *atomic.Int64)
 	c.R.Eval(1)
 	rg.up.SetScript(q.ID, q.Script)
 	hitsBefore := rg.up.Hits.Load()
+	t0 := time.Now()
 	resp := rawhttp.Do(c07Dial(rg, q), q.raw(), q.Method)
 	got := rg.up.Take(q.ID)
 	in := map[string]any{"Req": c07Describe(q), "Cfg": rg.hc}
@@ -457,6 +484,12 @@ func c07One(c *ctx, which string, rg *c07Rig, q *c07Req, unrouted *atomic.Int64)
 	}
 	if resp.Err != nil && q.Route != -2 {
 		viol(which, "request-failed", fmt.Sprintf("client error: %v (status %d, %d body bytes)", resp.Err, resp.Status, len(resp.Body)))
+		return
+	}
+	if which == "c20" {
+		if q.Route >= 0 && resp.Err == nil {
+			rg.logged.Store(q.ID, &c20Expect{Status: resp.Status, BodyLen: len(resp.Body), Method: q.Method, Service: fmt.Sprintf("r%d", q.Route), T0: t0, T1: time.Now(), Describe: c07Describe(q)})
+		}
 		return
 	}
 	// ---------- no route ----------
@@ -781,4 +814,74 @@ func c07Describe(q *c07Req) string {
 		up = " Upgrade=" + q.Upgrade
 	}
 	return fmt.Sprintf("%s %s?%s Host=%s via=%s from=%s body=%dB chunked=%v%s headers=[%s] upstream-script={status %d framing %s body %dB info %v}", q.Method, q.RawPath, q.Query, q.HostHdr, q.Via, q.Local, len(q.Body), q.Chunked, up, strings.Join(hs, " | "), q.Script.Status, q.Script.Framing, len(q.Script.Body), q.Script.Info)
+}
+
+// c20CheckLog compares the access log the binary wrote with what the clients saw: exactly one line per completed
+// proxied request; status, payload size, method and service as observed on the wire; the time in UTC and between the
+// moments the harness sent the request and had the whole response (same clock).
+func c20CheckLog(c *ctx, rg *c07Rig) {
+	time.Sleep(300 * time.Millisecond) // the line is written after the response: let the last ones reach the file
+	b, err := os.ReadFile(rg.rg.proc.LogPath)
+	tRead := time.Now()
+	if err != nil {
+		c.R.Inconcl("cannot read fabio's output: %v", err)
+		return
+	}
+	lines := map[string][]string{}
+	for _, l := range strings.Split(string(b), "\n") {
+		if i := strings.Index(l, "ACCESSLOG|"); i >= 0 {
+			f := strings.Split(l[i:], "|")
+			if len(f) >= 2 {
+				lines[f[1]] = append(lines[f[1]], l[i:])
+			}
+		}
+	}
+	c.R.Count("access_log_lines", int64(len(lines)))
+	rg.logged.Range(func(k, v any) bool {
+		id, e := k.(string), v.(*c20Expect)
+		c.R.Eval(1)
+		in := map[string]any{"Req": e.Describe, "Lines": lines[id]}
+		if e.Status != 200 || e.BodyLen > 0 {
+			c.R.Nontrivial("log|" + id)
+		}
+		if len(lines[id]) != 1 {
+			c.R.Violate("c20w:not-one-line", fmt.Sprintf("request %s (client saw status %d, %d body bytes) has %d access log lines\n request: %s", id, e.Status, e.BodyLen, len(lines[id]), e.Describe), in)
+			return true
+		}
+		f := strings.Split(lines[id][0], "|")
+		if len(f) != 9 {
+			c.R.Violate("c20w:line-malformed", fmt.Sprintf("line %q does not have the 9 configured fields", lines[id][0]), in)
+			return true
+		}
+		if f[2] != strconv.Itoa(e.Status) {
+			c.R.Violate("c20w:status-differs", fmt.Sprintf("the client received status %d, the log says %s\n request: %s", e.Status, f[2], e.Describe), in)
+		}
+		if e.Method != "HEAD" && f[3] != strconv.Itoa(e.BodyLen) {
+			c.R.Violate("c20w:body-size-differs", fmt.Sprintf("the client received %d body bytes (status %d), the log says %s\n request: %s", e.BodyLen, e.Status, f[3], e.Describe), in)
+		}
+		if f[4] != e.Method {
+			c.R.Violate("c20w:method-differs", fmt.Sprintf("method %s logged as %s", e.Method, f[4]), in)
+		}
+		if f[5] != e.Service {
+			c.R.Violate("c20w:service-differs", fmt.Sprintf("request routed to %s logged as %s", e.Service, f[5]), in)
+		}
+		ts, err := time.Parse("2006-01-02T15:04:05.000Z", f[6])
+		ms, err2 := strconv.ParseInt(f[7], 10, 64)
+		tc, err3 := time.Parse("02/Jan/2006:15:04:05 -0700", f[8])
+		switch {
+		case err != nil || err2 != nil || err3 != nil:
+			c.R.Violate("c20w:time-malformed", fmt.Sprintf("time fields %q %q %q do not parse (%v %v %v)", f[6], f[7], f[8], err, err2, err3), in)
+		case ts.Before(e.T0.Add(-2*time.Millisecond)) || ts.After(tRead):
+			// the logged instant is the end of fabio's handler: after the request was sent, before the log was read
+			c.R.Violate("c20w:time-not-utc", fmt.Sprintf("$time_rfc3339_ms %s does not lie between the moment the request was sent (%s) and the moment the log was read (%s), in UTC", f[6], e.T0.UTC().Format(time.RFC3339Nano), tRead.UTC().Format(time.RFC3339Nano)), in)
+		case ts.UnixMilli() != ms:
+			c.R.Violate("c20w:time-fields-disagree", fmt.Sprintf("$time_rfc3339_ms %s and $time_unix_ms %s differ", f[6], f[7]), in)
+		case tc.Unix() != ts.Unix():
+			c.R.Violate("c20w:time-fields-disagree", fmt.Sprintf("$time_common %s and $time_rfc3339_ms %s differ", f[8], f[6]), in)
+		}
+		if c.R.WantSample() && e.Status != 200 {
+			c.R.Sample(map[string]any{"client_status": e.Status, "client_body_bytes": e.BodyLen, "log_line": lines[id][0]})
+		}
+		return true
+	})
 }
